@@ -306,6 +306,34 @@ def entity_getters_hand_out_copies(ctx, rule):
                        f'are made gives an entity with the descriptor of one MDIB version and states of another (two associated '
                        f'location states in one copy)', fi=fi, node=c)
     ctx.floor(rule, k, 3, '_mk_entity calls in the entity getters')
+    # an entity is made of deep copies only (a shallow copy of a container shares its list members with the MDIB object) ...
+    for q in sorted(repo.classes):
+        if EG not in repo.mro(q):
+            continue
+        mke = repo.classes[q].methods.get('_mk_entity')
+        if mke is None:
+            continue
+        shallow = [unparse(c)[:50] for c in calls_in(mke.node, 'copy') if isinstance(c.func, ast.Attribute) and
+                   unparse(c.func.value) == 'copy']
+        ctx.ob(rule, f'{repo.classes[q].name}._mk_entity copies deeply', not shallow,
+               '_mk_entity builds the entity from deep copies' if not shallow else
+               f'_mk_entity uses a shallow copy ({shallow}): the list-valued members of the copy (Source, Identification ..) are the '
+               f'lists of the stored container - changing them in place changes the MDIB object without re-indexing it', fi=mke)
+    # ... and refreshing it takes over whatever the MDIB has now: update() overwrites every state that still exists, whether or not
+    # its version counters changed (local, never written edits of the copy do not change any version - they must be discarded)
+    for ent in ('Entity', 'MultiStateEntity'):
+        ufi = repo.funcs.get(f'sdc11073.mdib.mdibbase.{ent}.update')
+        if ufi is None:
+            continue
+        gu = cfg_of(ufi)
+        for un, uc in gu.nodes_calling('update_from_other_container'):
+            cond = [t for t, _p in gu.facts_at(un).both() if 'Version' in t]
+            arg_ok = bool(uc.args) and isinstance(uc.args[0], ast.Call) and call_name(uc.args[0]) in ('deepcopy', 'mk_copy')
+            ctx.ob(rule, f'{ent}.update refreshes from a deep copy, unconditionally', not cond and arg_ok,
+                   f'{ent}.update overwrites the entity with deep copies of what the MDIB holds' if not cond and arg_ok else
+                   f'{ent}.update refreshes only under {cond} / from {unparse(uc.args[0]) if uc.args else "?"}: local edits of the '
+                   f'entity survive the refresh (or the entity shares nested values with the MDIB) - the next write-back commits '
+                   f'something that was never read from the MDIB', fi=ufi, node=uc)
 
 
 def written_entities_are_copied(ctx, rule):
@@ -718,3 +746,164 @@ def string_readers_return_the_text(ctx, rule):
                f'{name}.get_py_value_from_node edits / filters the element texts ({(edits + filters)[:2]}): a handle with surrounding '
                f'white space selects another object, a blank one disappears and an empty list selects everything', fi=fi)
     ctx.floor(rule, n, 1, 'readers of string lists in element content')
+
+
+def log_handlers_never_raise(ctx, rule):
+    """A logging.Handler.emit that raises takes the thread that logged with it: the communication logger is called from the
+    discovery send thread and the soap clients. Every statement of an `emit` that does any work lies in a try with a catch-all
+    (the logging convention: handleError)."""
+    repo = ctx.repo
+    n = 0
+    for q, fi in sorted(repo.funcs.items()):
+        if fi.name != 'emit' or fi.cls is None or not q.startswith('sdc11073.commlog.'):
+            continue
+        n += 1
+        loose = []
+        for st in fi.node.body:
+            if isinstance(st, ast.Expr) and isinstance(st.value, ast.Constant):
+                continue
+            if isinstance(st, ast.Try) and any(h.type is None or unparse(h.type).split('.')[-1] in ('Exception', 'BaseException')
+                                                for h in st.handlers):
+                continue
+            if any(isinstance(x, ast.Call) for x in ast.walk(st)):
+                loose.append(unparse(st)[:50])
+        ctx.ob(rule, f'{fi.cls.name}.emit is contained', not loose,
+               f'{fi.cls.name}.emit does all its work inside a catch-all' if not loose else
+               f'{fi.cls.name}.emit runs {loose[:2]} outside its catch-all: an OSError of the log file ends the thread that logged '
+               f'(the discovery send thread: every queued and later datagram is never sent)', fi=fi)
+    ctx.floor(rule, n, 1, 'logging handlers of the package')
+
+
+def discovery_reader_validates(ctx, rule):
+    """The message reader shared by all discovery nodes validates what it receives: parts of a received message are echoed into
+    answers (MessageID -> RelatesTo) that the send thread validates before sending - an unvalidated value kills that thread."""
+    repo = ctx.repo
+    mod = repo.module('sdc11073.wsdiscovery.common')
+    found = 0
+    for st in mod.tree.body:
+        if isinstance(st, ast.Assign) and isinstance(st.value, ast.Call) and call_name(st.value) == 'MessageReader':
+            found += 1
+            off = [unparse(k.value) for k in st.value.keywords if k.arg == 'validate' and
+                   not (isinstance(k.value, ast.Constant) and k.value.value is True)]
+            ctx.ob(rule, 'the discovery message reader validates', not off,
+                   'wsdiscovery.common.message_reader is built with validation on' if not off else
+                   f'wsdiscovery.common.message_reader is built with validate={off[0]}: the validate=True of the receive loop has no '
+                   f'effect any more, a Probe with a MessageID that is no URI is answered and the answer fails its own validation in '
+                   f'the send thread', where='sdc11073.wsdiscovery.common', line=st.lineno)
+    ctx.floor(rule, found, 1, 'MessageReader constructions in wsdiscovery.common')
+
+
+def readers_test_only_for_none(ctx, rule):
+    """In the readers of the XML structure a value is missing when it is None - never when it is merely falsy: `Attr=""` is the
+    empty string, MetadataVersion 0 is 0. Every test in a get_py_value_from_node that looks at the raw or converted value is a
+    None test (or an isinstance test)."""
+    repo = ctx.repo
+    n = 0
+    for q, ci in sorted(repo.classes.items()):
+        if not q.startswith(XS + '.'):
+            continue
+        fi = ci.methods.get('get_py_value_from_node')
+        if fi is None:
+            continue
+        n += 1
+        bad = []
+        for t in _tests_of(fi.node):
+            if isinstance(t, ast.BoolOp):
+                continue   # its operands are visited on their own below
+            parts = [t]
+            for p in parts:
+                if none_test(p) or (isinstance(p, ast.Call) and call_name(p) in ('isinstance', 'hasattr', 'callable')):
+                    continue
+                if isinstance(p, ast.UnaryOp) and isinstance(p.op, ast.Not):
+                    p = p.operand
+                if isinstance(p, ast.Name) or (isinstance(p, ast.Attribute) and p.attr in ('text',)):
+                    bad.append(unparse(p))   # truthiness of a value
+        for b in [x for x in ast.walk(fi.node) if isinstance(x, ast.BoolOp)]:
+            for v in b.values:
+                core = v.operand if isinstance(v, ast.UnaryOp) and isinstance(v.op, ast.Not) else v
+                if isinstance(core, ast.Name) or (isinstance(core, ast.Attribute) and core.attr == 'text'):
+                    bad.append(unparse(core))
+        ctx.ob(rule, f'{ci.name}: reader tests values for None only', not bad,
+               f'{ci.name}.get_py_value_from_node distinguishes "no value" by None tests' if not bad else
+               f'{ci.name}.get_py_value_from_node tests the truth value of {sorted(set(bad))}: a legal falsy value (empty string, 0, '
+               f'zero duration) is read as missing / replaced by the default', fi=fi)
+    ctx.floor(rule, n, 15, 'readers of the XML structure')
+
+
+def descriptor_classes_hold_no_shared_state(ctx, rule):
+    """A subclass of a property descriptor (`class QNameListType(NodeTextQNameListProperty)`) is instantiated once per declaring
+    class and serves every instance and every message: a class-level dict / list on it (a cache of resolved values) is shared by
+    all of them. None has one; none overrides a reader to remember what it read."""
+    repo = ctx.repo
+    n = 0
+    base = f'{XS}._XmlStructureBaseProperty'
+    for q, ci in sorted(repo.classes.items()):
+        if not q.startswith('sdc11073.xml_types.') or base not in repo.mro(q):
+            continue
+        n += 1
+        shared = [unparse(st)[:50] for st in ci.node.body if isinstance(st, (ast.Assign, ast.AnnAssign)) and st.value is not None and
+                  isinstance(st.value, (ast.Dict, ast.List, ast.Set, ast.DictComp, ast.ListComp, ast.SetComp)) or
+                  (isinstance(st, (ast.Assign, ast.AnnAssign)) and isinstance(getattr(st, 'value', None), ast.Call) and
+                   call_name(st.value) in ('dict', 'list', 'set', 'defaultdict', 'OrderedDict', 'WeakValueDictionary'))]
+        if shared:
+            ctx.ob(rule, f'{ci.name}: class-level container', False,
+                   f'{ci.name} (a property descriptor) has the class-level container(s) {shared}: what one message / instance puts '
+                   f'there is seen by every other one (e.g. QNames resolved with the prefixes of an earlier message)', fi=None,
+                   where=q, line=ci.node.lineno)
+    ctx.ob(rule, 'descriptor classes hold no shared containers', True, f'{n} descriptor classes checked')
+    ctx.floor(rule, n, 55, 'property descriptor classes')
+
+
+def property_tables_are_computed(ctx, rule):
+    """sorted_container_properties (both base classes) computes the list of (name, property) pairs from the class hierarchy on
+    every call and returns a new list: nothing is remembered in a module- or class-level container (a cache keyed by the class
+    NAME serves another class of the same name; a cached list that a caller changes alters the members of all later instances)."""
+    repo = ctx.repo
+    n = 0
+    for q in ('sdc11073.xml_types.basetypes.XMLTypeBase.sorted_container_properties',
+              'sdc11073.mdib.containerbase.ContainerBase.sorted_container_properties'):
+        fi = repo.funcs.get(q)
+        if fi is None:
+            continue
+        n += 1
+        local = {a.arg for a in fi.node.args.args} | set(__import__('engine.util', fromlist=['x']).local_assignments(fi.node))
+        stores = [unparse(t)[:50] for x in walk_no_nested(fi.node) if isinstance(x, (ast.Assign, ast.AugAssign, ast.AnnAssign))
+                  for t in (x.targets if isinstance(x, ast.Assign) else [x.target])
+                  if isinstance(t, (ast.Subscript, ast.Attribute)) and (unparse(t).split('[')[0].split('.')[0] not in local or
+                                                                         unparse(t).startswith(('self.', 'cls.')))]
+        memo = [unparse(d) for d in fi.node.decorator_list if 'cache' in unparse(d)]
+        rets = [r.value for r in walk_no_nested(fi.node) if isinstance(r, ast.Return) and r.value is not None]
+        foreign = [unparse(v)[:40] for v in rets if isinstance(v, ast.Subscript) or
+                   (isinstance(v, ast.Name) and v.id not in local)]
+        ctx.ob(rule, f'{fi.cls.name}.sorted_container_properties is computed', not stores and not memo and not foreign,
+               f'{fi.cls.name}.sorted_container_properties builds a new list from the class hierarchy on every call'
+               if not stores and not memo and not foreign else
+               f'{fi.cls.name}.sorted_container_properties remembers its result ({stores or memo or foreign}): instances of different '
+               f'classes (same name) or a caller that edits the list change which members later instances have', fi=fi)
+    ctx.floor(rule, n, 2, 'sorted_container_properties implementations')
+
+
+def writers_omit_only_none(ctx, rule):
+    """A writer of the XML structure (update_xml_value) leaves an attribute / element out only when the value is None: a test that
+    compares the value with a literal ('' or 0) or takes its truth value drops legal values - the reader then sees "absent"."""
+    repo = ctx.repo
+    n = 0
+    for q, ci in sorted(repo.classes.items()):
+        if not q.startswith(XS + '.'):
+            continue
+        fi = ci.methods.get('update_xml_value')
+        if fi is None:
+            continue
+        n += 1
+        bad = []
+        for t in _tests_of(fi.node):
+            for x in ([t] if not isinstance(t, ast.BoolOp) else t.values):
+                if isinstance(x, ast.Compare) and len(x.ops) == 1 and isinstance(x.ops[0], (ast.Eq, ast.NotEq)) and \
+                        any(isinstance(o, ast.Name) and o.id == 'py_value' for o in (x.left, x.comparators[0])) and \
+                        any(isinstance(o, ast.Constant) and o.value is not None for o in (x.left, x.comparators[0])):
+                    bad.append(unparse(x))
+        ctx.ob(rule, f'{ci.name}: writer omits only None', not bad,
+               f'{ci.name}.update_xml_value compares the value with no literal' if not bad else
+               f'{ci.name}.update_xml_value leaves the value out under {bad}: a committed empty string (a cleared text metric) is '
+               f'reported as absent - the consumer reads None for a value the provider has', fi=fi)
+    ctx.floor(rule, n, 15, 'writers of the XML structure')
